@@ -121,7 +121,38 @@ def run(ctx):
     finally:
         aa["A"] = old_A
         del aa["U"]
-    ctx.floor("R1", 34)
+    # spaces separate nothing: a spaced sequence is the sum of every letter in it, whatever the blocks happen to spell
+    # (blocks of three that read as residue names, blocks of ten as pasted from a sequence database)
+    alphabet = "ACDEFGHIKLMNPQRSTVWY"
+    Mol = I.get_class("fasta.Molecule")
+    fm = I.global_name("formulas", "formula")
+    full = {}
+    for c in alphabet:
+        f = I.call(fm, [{A["element"]: P(f"n{c}"), A["H1"]: P(f"h{c}")}], {})
+        full[c] = I.instantiate(Mol, [c, f], {"cell_volume": P(f"V{c}"), "charge": sp.Symbol(f"z{c}", real=True)},
+                                name=f"res{c}", open_attrs=())
+    saved = dict(aa)
+    aa.clear()
+    aa.update(full)
+    try:
+        for text in ("ALA GLY SER", "GLY GLY", "MET LYS VAL", "SER VAL MET ASP ASN", "ARG GLY LEY", "MKVLAAGIVG LLLAQWERTY"):
+            letters = text.replace(" ", "")
+            rr = raises(lambda: seq(text))
+            if rr is not None:
+                ctx.fail("R1", f"'{text}': sum over its {len(letters)} letters", f"raises {rr}", site)
+                continue
+            s = seq(text)
+            eq(ctx, "R1", f"cell volume of '{text}' = sum over its {len(letters)} letters", I.getattr(s, "cell_volume"),
+               sum(P(f"V{c}") for c in letters), site)
+            eq(ctx, "R1", f"charge of '{text}' = sum over its {len(letters)} letters", I.getattr(s, "charge"),
+               sum(sp.Symbol(f"z{c}", real=True) for c in letters), site)
+            dict_eq(ctx, "R1", f"formula of '{text}' = sum over its {len(letters)} letters",
+                    I.getattr(I.getattr(s, "labile_formula"), "atoms"),
+                    {A["element"]: sum(P(f"n{c}") for c in letters), A["H1"]: sum(P(f"h{c}") for c in letters)}, site)
+    finally:
+        aa.clear()
+        aa.update(saved)
+    ctx.floor("R1", 56)
 
     # ---- R2 averaged codes -------------------------------------------------------------------
     # the averaging helper: the function of fasta with two parameters that every module-level "averaged code" definition
